@@ -34,6 +34,34 @@ M = {
   ('right assoc pops equal', 'sourcer/expressions/operator_table.py', "_top_prec == _prec and _top_assoc == 1)", "_top_prec == _prec and _top_assoc in (1, 2))"),
   ('prefix popped by looser infix only', 'sourcer/expressions/operator_table.py', "Code(f'_top_prec < _prec or (", "Code(f'(_top_prec < _prec and _top_assoc != 0) or ("),
  ],
+ 'C14': [
+  ('eq skips last field', 'sourcer/translator.py', "        for field in self._fields:\n            left = getattr(self, field)", "        for field in self._fields[:-1] if len(self._fields) > 1 else self._fields:\n            left = getattr(self, field)"),
+  ('hash dict order-dependent', 'sourcer/translator.py', "            for pair in value.items():\n                result ^= _hash(pair)", "            for pair in value.items():\n                result = result * 31 + _hash(pair)"),
+  ('replace returns self when empty', 'sourcer/translator.py', "    def _replace(self, **kw):\n", "    def _replace(self, **kw):\n        if not kw:\n            return self\n"),
+  ('replace drops metadata', 'sourcer/translator.py', "        result = self.__class__(**kw)\n        result._metadata.update(self._metadata)\n", "        result = self.__class__(**kw)\n"),
+  ('revert F18', 'sourcer/translator.py', "        if name == '_fields' or (name.startswith('__') and name.endswith('__')):", "        if False:"),
+  ('eq ignores class', 'sourcer/translator.py', "        if not isinstance(other, self.__class__):\n            return False", "        if not isinstance(other, ParsedObject) or self._fields != other._fields:\n            return False"),
+  ('hash list order-dependent', 'sourcer/translator.py', "            for item in value:\n                result ^= _hash(item)", "            for i, item in enumerate(value):\n                result ^= _hash(item) * (i + 1)"),
+  ('hash cached across replace', 'sourcer/translator.py', "        result._metadata.update(self._metadata)\n        return result", "        result._metadata.update(self._metadata)\n        result._hash = self._hash\n        return result"),
+  ('eq identity shortcut on fields only', 'sourcer/translator.py', "            if left is not right and left != right:", "            if left is not right and not (left == right):"),
+ ],
+ 'C15': [
+  ('visit fields unreversed', 'sourcer/translator.py', "                stack.extend(getattr(node, x) for x in reversed(node._fields))", "                stack.extend(getattr(node, x) for x in node._fields)"),
+  ('traverse unreversed', 'sourcer/translator.py', "            stack.extend(reversed(list(items)))", "            stack.extend(list(items))"),
+  ('traverse dict by index', 'sourcer/translator.py', "                for k, v in child.items()", "                for k, v in enumerate(child.values())"),
+  ('revert F19', 'sourcer/translator.py', "        child = traversing.child\n        stack.append(traversing._replace(is_finished=True))\n        yield traversing\n", "        child = traversing.child\n        if id(child) in visited:\n            continue\n        stack.append(traversing._replace(is_finished=True))\n        yield traversing\n        visited.add(id(child))\n"),
+  ('visit skips tuples', 'sourcer/translator.py', "        if isinstance(node, (list, tuple)):\n            stack.extend(reversed(node))\n\n        elif isinstance(node, dict):\n            stack.extend(reversed(node.values()))", "        if isinstance(node, list):\n            stack.extend(reversed(node))\n\n        elif isinstance(node, dict):\n            stack.extend(reversed(node.values()))"),
+  ('visit recursive for objects', 'sourcer/translator.py', "            yield node\n\n            if hasattr(node, '_fields'):\n                stack.extend(getattr(node, x) for x in reversed(node._fields))", "            yield node\n\n            for x in node._fields:\n                yield from (n for n in visit(getattr(node, x)) if id(n) not in visited and not visited.add(id(n)))"),
+ ],
+ 'C16': [
+  ('metadata condition inverted', 'sourcer/translator.py', "                    and not node._metadata\n", "                    and node._metadata\n"),
+  ('replace drops metadata', 'sourcer/translator.py', "        result = self.__class__(**kw)\n        result._metadata.update(self._metadata)\n", "        result = self.__class__(**kw)\n"),
+  ('callbacks reversed', 'sourcer/translator.py', "        for f in callbacks:\n            prev = node", "        for f in reversed(callbacks):\n            prev = node"),
+  ('parent before children when changed', 'sourcer/translator.py', "    if updates:\n        node = node._replace(**updates)\n\n    return callback(node)", "    if updates:\n        node = node._replace(**updates)\n        return node\n\n    return callback(node)"),
+  ('tuples transformed', 'sourcer/translator.py', "    if isinstance(node, list):\n        return [_transform(x, callback) for x in node]", "    if isinstance(node, list):\n        return [_transform(x, callback) for x in node]\n    if isinstance(node, tuple):\n        return tuple(_transform(x, callback) for x in node)"),
+  ('in-place update', 'sourcer/translator.py', "    if updates:\n        node = node._replace(**updates)\n", "    if updates:\n        for k, v in updates.items():\n            setattr(node, k, v)\n"),
+  ('metadata shared not copied', 'sourcer/translator.py', "                    node._metadata.update(prev._metadata)\n", "                    node._metadata = prev._metadata\n"),
+ ],
  'C03': [
   ('sep drop pop', 'sourcer/expressions/sep.py', "                    with out.IF(staging):\n                        out += staging.pop()\n", "                    pass\n"),
   ('sep require_separator empty', 'sourcer/expressions/sep.py', "Code(f'not {staging} or {saw_separator}')", "Code(f'{saw_separator}')"),
